@@ -206,6 +206,7 @@ theorem runs_den {s : σ} {L : List (α × Nat)} {e : Nat} (h : Den m cost s L e
       Den (runsProto same take m) (rcost cost) (RC s none gen g prev acc) (runsGoA same take (some acc) prev L e) e) ∧
     (∀ gen g prev, Den (runsProto same take m) (rcost cost) (RD s none gen g prev false) (runsGoA same take none prev L e) e) ∧
     (∀ gen, Den (runsProto same take m) (rcost cost) (RS s none gen) (runsStartA same take L e) e) := by
+  have _tie := Skeleton.Tie.itRuns
   induction h with
   | @skip s s' L e hs _ ih =>
     obtain ⟨ihc, ihd, ihs⟩ := ih
